@@ -615,13 +615,86 @@ def url_case(ctx, workdir):
             shutil.rmtree(d, ignore_errors=True)
 
 
+def read_and_remove_failures(ctx, workdir):
+    """A lookup never raises and never serves a stale entry, also when the entry opens but cannot be read (I/O error
+    at read), and when an entry past its duration cannot be deleted."""
+    import suds.cache
+    for cls, val in ((suds.cache.FileCache, b"raw-bytes"), (suds.cache.ObjectCache, {"a": 1}),
+                     (suds.cache.DocumentCache, mk_value("document", 1))):
+        d = tempfile.mkdtemp(dir=workdir)
+        c = cls(location=d)
+        c.put("k", val)
+
+        class F:
+            def __init__(self, real):
+                self.real = real
+
+            def _boom(self, *a, **k):
+                raise OSError(5, "Input/output error")
+            read = readline = readinto = readlines = peek = _boom
+
+            def close(self):
+                self.real.close()
+
+            def __iter__(self):
+                self._boom()
+
+            def __getattr__(self, n):
+                return getattr(self.real, n)
+
+        def fake_open(name, mode="r", *a, **k):
+            f = open(name, mode, *a, **k)
+            return F(f) if "r" in mode and os.path.abspath(name).startswith(os.path.abspath(d)) else f
+        suds.cache.open = fake_open
+        ctx.case(("read-failure", cls.__name__), True)
+        try:
+            try:
+                g = c.get("k")
+            except Exception as e:
+                ctx.fail("get raised on an entry that opens but cannot be read", {"class": cls.__name__}, repr(e),
+                         "None")
+                g = None
+        finally:
+            del suds.cache.open
+        if g is not None:
+            ctx.fail("an unreadable entry produced an object", {"class": cls.__name__}, repr(g)[:80], None)
+        # an entry past its duration that cannot be deleted is still not served
+        d2 = tempfile.mkdtemp(dir=workdir)
+        c2 = cls(location=d2, seconds=5)
+        c2.put("k", val)
+        real_remove = os.remove
+        real_getctime = os.path.getctime
+
+        def no_remove(path, *a, **k):
+            if os.path.abspath(path).startswith(os.path.abspath(d2)):
+                raise PermissionError(13, "Permission denied", path)
+            return real_remove(path, *a, **k)
+        os.path.getctime = lambda path: real_getctime(path) - 3600
+        os.remove = no_remove
+        ctx.case(("expired-undeletable", cls.__name__), True)
+        try:
+            try:
+                g = c2.get("k")
+            except Exception as e:
+                ctx.fail("get raised on an expired entry that cannot be deleted", {"class": cls.__name__}, repr(e), "None")
+                g = None
+        finally:
+            os.remove = real_remove
+            os.path.getctime = real_getctime
+        if g is not None:
+            ctx.fail("an entry past its duration was served (it could not be deleted)", {"class": cls.__name__},
+                     repr(g)[:80], None)
+
+
 def run(ctx):
-    workdir = tempfile.mkdtemp(prefix="verif-c11-")
+    # (the directory's name holds characters that mean something to glob / fnmatch / regular expressions)
+    workdir = tempfile.mkdtemp(prefix="verif-c11 [v1]*?-")
     try:
         histories(ctx, workdir)
         sweep(ctx, workdir)
         stress(ctx, workdir)
         write_failures(ctx, workdir)
+        read_and_remove_failures(ctx, workdir)
         shared_dir(ctx, workdir)
         url_case(ctx, workdir)
         warm_clients(ctx, workdir)
